@@ -395,7 +395,12 @@ impl<CharIter: Iterator<Item = char>> Lexer<CharIter> {
                 self.advance(1);
             }
         }
-        self.digital10(number_literal)
+        self.digital10(number_literal)?;
+        // a number ends at a delimiter: "1e5x" is not the number 1e5 followed by the identifier x
+        match self.peekable_char_stream.peek() {
+            Some(nc) => Self::test_delimiter(Some(self.location), *nc),
+            None => Ok(()),
+        }
     }
 
     fn real(&mut self, number_literal: &mut String) -> Result<()> {
@@ -447,6 +452,10 @@ impl<CharIter: Iterator<Item = char>> Lexer<CharIter> {
                                 let mut denominator = String::new();
                                 self.advance(1);
                                 self.digital10(&mut denominator)?;
+                                // a ratio ends at a delimiter: "1/2x" is not 1/2 followed by x
+                                if let Some(nc) = self.peekable_char_stream.peek() {
+                                    Self::test_delimiter(Some(self.location), *nc)?;
+                                }
                                 break Ok(Some(TokenData::Primitive(Primitive::Rational(
                                     Self::parse_number::<i32>(&number_literal, self.location)?,
                                     match Self::parse_number::<u32>(&denominator, self.location)? {
